@@ -905,14 +905,25 @@ func (c *control) getEFGarg(ff *floatFormatter) {
 		ff.digits = num.Append(nil, 10)
 	case slip.Real:
 		num := ta.RealValue()
-		if ff.neg = num < 0.0; ff.neg {
+		if math.IsInf(num, 0) || math.IsNaN(num) {
+			ff.digits = strconv.AppendFloat(nil, num, 'e', -1, 64)
+			ff.notNum = true
+			break
+		}
+		if ff.neg = math.Signbit(num); ff.neg {
 			num = -num
 		}
-		ff.exp = int(math.Floor(math.Log10(num)))
+		if num != 0.0 {
+			ff.exp = int(math.Floor(math.Log10(num)))
+		}
 		ff.digits = strconv.AppendFloat(nil, num, 'e', -1, 64)
 		ff.digits = ff.digits[:bytes.IndexByte(ff.digits, 'e')]
-		copy(ff.digits[1:], ff.digits[2:])
-		ff.digits = ff.digits[:len(ff.digits)-1]
+		if 1 < len(ff.digits) {
+			// Remove the decimal point. It is not present if there is
+			// only one digit.
+			copy(ff.digits[1:], ff.digits[2:])
+			ff.digits = ff.digits[:len(ff.digits)-1]
+		}
 		ff.exp -= len(ff.digits) - 1
 	default:
 		p := *slip.DefaultPrinter()
